@@ -1,7 +1,7 @@
 (* C08 - Conformant SD-JWTs from other issuers are processed as the specification says. *)
 From Coq Require Import List String Ascii Bool Arith.
 Import ListNotations.
-Require Import SDJ.Json SDJ.Wire SDJ.Model2 SDJ.Out SDJ.Restore2 SDJ.ATree SDJ.T2c SDJ.T2h SDJ.T2e SDJ.T2m SDJ.T2o SDJ.Split SDJ.Verify SDJ.C03Proofs.
+Require Import SDJ.Json SDJ.Wire SDJ.Model2 SDJ.Out SDJ.Restore2 SDJ.ATree SDJ.T2c SDJ.T2h SDJ.T2e SDJ.T2m SDJ.T2o SDJ.Split SDJ.Verify SDJ.C03Proofs SDJ.C12Proofs.
 Local Open Scope string_scope.
 
 (* For EVERY conformant token - described by any well-formed annotated tree t: any shape, recursive
@@ -25,8 +25,8 @@ Print Assumptions C08_interop.
 
 (* the digest algorithm used for every disclosure is the one named by the signed _sd_alg claim *)
 Theorem C08_algorithm_from_sd_alg :
-  forall O claims ds a alg,
-    jget "_sd_alg" claims = JStr a -> parse_halg a = Some alg ->
+  forall O claims ds alg,
+    declared_halg claims = Some alg ->
     restore_and_strip O claims ds =
     obind (of_res (restore_disclosures (o_hash O alg) (o_dec O) show_nat claims ds)) (fun cp => Val (remove_digests (fst cp), snd cp)).
 Proof. exact restore_and_strip_alg. Qed.
@@ -41,9 +41,9 @@ Theorem C08_verifier_accepts :
     (forall x y, H x = H y -> x = y) ->
     (forall ps, o_dec O (enc ps) = DJson (JArr ps)) ->
     forall t : atree, wf H enc t -> NoDup (alldigs H enc t) -> NoDup (hdigs H enc t) -> aheight t <= 129 ->
-    forall token kbpol jwt L ds hdr0 a alg,
+    forall token kbpol jwt L ds hdr0 alg,
       sd_jwt_parts token = (jwt, L, None) -> o_jwt O jwt = Val (hdr0, blind H enc t) ->
-      jget "_sd_alg" (blind H enc t) = JStr a -> parse_halg a = Some alg -> o_hash O alg = H ->
+      declared_halg (blind H enc t) = Some alg -> o_hash O alg = H ->
       jget "cnf" (blind H enc t) = JNull ->
       NoDup L -> (forall s, In s L -> In (H s) (alldigs H enc t) -> In (H s) (hdigs H enc t)) ->
       decode_all H (o_dec O) L = Ok ds ->
@@ -56,12 +56,19 @@ Theorem C08_holder_accepts :
     (forall x y, H x = H y -> x = y) ->
     (forall ps, o_dec O (enc ps) = DJson (JArr ps)) ->
     forall t : atree, wf H enc t -> NoDup (alldigs H enc t) -> NoDup (hdigs H enc t) -> aheight t <= 129 ->
-    forall token jwt L ds hdr0 a alg,
+    forall token jwt L ds hdr0 alg,
       sd_jwt_parts token = (jwt, L, None) -> o_jwt O jwt = Val (hdr0, blind H enc t) ->
-      jget "_sd_alg" (blind H enc t) = JStr a -> parse_halg a = Some alg -> o_hash O alg = H ->
+      declared_halg (blind H enc t) = Some alg -> o_hash O alg = H ->
       NoDup L -> (forall s, In s L -> In (H s) (alldigs H enc t) -> In (H s) (hdigs H enc t)) ->
       decode_all H (o_dec O) L = Ok ds ->
       exists ps, holder_verify O token = Val (hdr0, drop_alg (proj H enc (ownS H L) t), ps) /\
         Forall (fun pd : dpath => In (snd pd) ds /\ NodePath H enc show_nat (d_digest (snd pd)) t (fst pd)) ps.
 Proof. exact holder_verify_complete. Qed.
 Print Assumptions C08_holder_accepts.
+
+(* "If the _sd_alg claim is not present at the top level, a default value of sha-256 MUST be used" (repair F18):
+   with the two theorems above, a conformant token without the claim is accepted and restored with SHA-256 *)
+Theorem C08_missing_sd_alg_means_sha256 :
+  forall claims, jhas "_sd_alg" claims = false -> declared_halg claims = Some SHA256.
+Proof. exact declared_halg_default. Qed.
+Print Assumptions C08_missing_sd_alg_means_sha256.
